@@ -22,6 +22,7 @@ type tsdBlock struct {
 	mask  []bool   // one entry per slot start..start+len-1
 	vals  []uint64 // one IEEE-754 pattern per set slot, in slot order
 	vidx  []int    // slot index -> index into vals (or -1)
+	bad   string   // != "": the stored bytes are a damaged variant (damaged_test.go); only the time range means something
 }
 
 func newBlock(start uint16, mask []bool, vals []uint64) *tsdBlock {
@@ -54,6 +55,9 @@ func (b *tsdBlock) at(slot int) (uint64, bool) {
 }
 
 func (b *tsdBlock) String() string {
+	if b.bad != "" {
+		return fmt.Sprintf("DAMAGED(%s) start=%d slots=%d", b.bad, b.start, len(b.mask))
+	}
 	if len(b.mask) > 96 {
 		return fmt.Sprintf("start=%d slots=%d mask=%s... vals(%d)=%v... fnv=%x", b.start, len(b.mask), maskString(b.mask[:96]), len(b.vals), hex(capList(b.vals, 24)), b.hash())
 	}
@@ -527,6 +531,7 @@ func TestTSDStream(t *testing.T) {
 		enc := encoding.GetTSDEncoder(start)
 		canon := fmt.Sprintf("%d-%d", start, end)
 		nt := false
+		damagedFields, intactAfterDamaged := 0, false
 		for i := 0; i < nFields; i++ {
 			l := fmt.Sprintf("f%d", i)
 			mask, _ := genMask(t, l+"m", n)
@@ -535,6 +540,17 @@ func TestTSDStream(t *testing.T) {
 			id := rapid.Uint16().Draw(t, l+"id")
 			enc.RestWithStartTime(start)
 			data := encodeBlock(t, enc, blk, "append", false)
+			if rapid.IntRange(0, 5).Draw(t, l+"bad") == 0 {
+				// a field whose bytes are damaged (stream framing intact): the reader's one pooled decoder goes
+				// over it; the fields after it must still be read exactly
+				var kind string
+				data, kind = damageBytes(t, l+"dmg", data, 0)
+				blk = &tsdBlock{start: blk.start, mask: blk.mask, vals: blk.vals, vidx: blk.vidx, bad: kind}
+				damagedFields++
+				if i < nFields-1 {
+					intactAfterDamaged = true
+				}
+			}
 			w.WriteField(id, data)
 			fields = append(fields, fld{id, blk})
 			canon += fmt.Sprintf("|%d:%s", id, blk)
@@ -559,6 +575,14 @@ func TestTSDStream(t *testing.T) {
 			seenDecoders[dec] = struct{}{}
 			if id != fields[i].id {
 				t.Fatalf("field #%d id %d, wrote %d", i, id, fields[i].id)
+			}
+			if fields[i].blk.bad != "" {
+				if err := dec.Error(); err != nil {
+					t.Fatalf("field #%d: decoder error right after Next(): %v", i, err)
+				}
+				readDamaged(t, fmt.Sprintf("field #%d (%s)", i, fields[i].blk), dec, rapid.SampledFrom(damagedPaths).Draw(t, fmt.Sprintf("dp%d", i)), n+2)
+				i++
+				continue
 			}
 			p := genReadPlan(t, fmt.Sprintf("p%d", i), fields[i].blk, true)
 			execRead(t, dec, fields[i].blk, p)
@@ -607,7 +631,11 @@ func TestTSDStream(t *testing.T) {
 				rs[j].Close()
 			}
 		}
-		ev.Case("TestTSDStream", canon+fmt.Sprintf("|together=%d", k), nt, []string{fmt.Sprintf("fields=%d", nFields), fmt.Sprintf("readers-open-together=%d", k)},
+		cl := []string{fmt.Sprintf("fields=%d", nFields), fmt.Sprintf("readers-open-together=%d", k), fmt.Sprintf("damaged-fields=%d", min(damagedFields, 3))}
+		if intactAfterDamaged {
+			cl = append(cl, "intact-field-after-damaged-field")
+		}
+		ev.Case("TestTSDStream", canon+fmt.Sprintf("|together=%d", k), nt, cl,
 			map[string]any{"start": start, "end": end, "fields": nFields, "together": k})
 	})
 }
